@@ -2,6 +2,7 @@
 import ast
 
 from .model import AnalysisError, node_src, is_self_attr, call_name, fold, NotConst
+from .spec import CLOCKS
 from .paths import Interp, Domain, Env, TOP, NONE, Const, Exc, ORD, ASYNC, fmt_trace
 from . import exchange
 from .report import walk_no_nested
@@ -166,7 +167,7 @@ class SwallowDomain(Domain):
 
     def call(self, node, fval, args, kwargs, state):
         name = call_name(node)
-        if name in ("self.close", "logger.debug", "time.time"):
+        if name in ("self.close", "logger.debug") or name in CLOCKS:
             return [("ok", TOP, state)]
         if self.only_receiver is not None and name.startswith("self._") and name.count(".") == 1 and self.fn is not None and self.fn.cls is not None:
             # a private helper of the wrapper (e.g. a shared failure handler that says whether to re-raise)
